@@ -79,3 +79,28 @@ func init() {
 		os.Exit(0)
 	}
 }
+
+func init() {
+	if os.Getenv("LUNGOCHECK_DBG") == "fields" {
+		repo := os.Getenv("LUNGOCHECK_REPO")
+		if repo == "" {
+			repo = "/repo"
+		}
+		c, err := loadRepo(repo, true)
+		if err != nil {
+			panic(err)
+		}
+		s := shareAnalysis(c)
+		var lines []string
+		for f, t := range s.field {
+			if t.top|t.deep != 0 {
+				lines = append(lines, fmt.Sprintf("%s.%s top=%s deep=%s", f.Pkg().Name(), f.Name(), taintStr(t.top), taintStr(t.deep)))
+			}
+		}
+		sort.Strings(lines)
+		for _, l := range lines {
+			fmt.Println(l)
+		}
+		os.Exit(0)
+	}
+}
